@@ -78,6 +78,9 @@ struct ClientResult {
     sent: Vec<(String, Instant)>,
     closed_gracefully: bool,
     close_reply: bool,
+    /// how the wait for the Close reply went (diagnostics), and whether the machine stalled the waiting thread
+    close_wait: String,
+    close_wait_disturbed: bool,
     stayed_until_barrier: bool,
 }
 
@@ -92,7 +95,7 @@ fn ws_connect(addr: SocketAddr) -> Result<(Conn, SocketAddr), String> {
 }
 
 fn run_client(addr: SocketAddr, plan: ClientPlan, rng_seed: u64, barrier_reached: Arc<AtomicBool>, release: Arc<AtomicBool>, connect_logged: impl Fn(SocketAddr) -> bool) -> ClientResult {
-    let mut res = ClientResult { local: None, texts: vec![], pongs: vec![], bad_frames: vec![], sent: vec![], closed_gracefully: false, close_reply: false, stayed_until_barrier: false };
+    let mut res = ClientResult { local: None, texts: vec![], pongs: vec![], bad_frames: vec![], sent: vec![], closed_gracefully: false, close_reply: false, close_wait: String::new(), close_wait_disturbed: false, stayed_until_barrier: false };
     let (c, local) = match ws_connect(addr) {
         Ok(x) => x,
         Err(e) => {
@@ -105,6 +108,11 @@ fn run_client(addr: SocketAddr, plan: ClientPlan, rng_seed: u64, barrier_reached
     let writer = Arc::new(Mutex::new(c.s.try_clone().unwrap()));
     let stop_reader = Arc::new(AtomicBool::new(false));
     let shared: Arc<Mutex<(Vec<String>, Vec<Vec<u8>>, Vec<String>, bool)>> = Arc::new(Mutex::new((vec![], vec![], vec![], false)));
+    // set (under the writer lock) before the client's own Close is written: nothing is written after a Close. A pong
+    // written after it would still be unread when the server closes the socket, the kernel would answer it with a
+    // reset, and a reset discards what the client has not read yet - the server's Close reply among it.
+    let closing = Arc::new(AtomicBool::new(false));
+    let closing2 = closing.clone();
     let (w2, sr2, sh2) = (writer.clone(), stop_reader.clone(), shared.clone());
     let mut rc = c;
     let reader = std::thread::spawn(move || {
@@ -123,7 +131,10 @@ fn run_client(addr: SocketAddr, plan: ClientPlan, rng_seed: u64, barrier_reached
                                 // heartbeat ping from the server: answer it
                                 drop(g);
                                 let pong = RefFrame::new(10, true, Some([1, 2, 3, 4]), f.payload.clone()).encode();
-                                w2.lock().unwrap().write_all(&pong).ok();
+                                let mut w = w2.lock().unwrap();
+                                if !closing2.load(Ordering::SeqCst) {
+                                    w.write_all(&pong).ok();
+                                }
                             }
                             10 => g.1.push(f.payload.clone()),
                             8 => g.3 = true,
@@ -225,15 +236,25 @@ fn run_client(addr: SocketAddr, plan: ClientPlan, rng_seed: u64, barrier_reached
             }
             res.stayed_until_barrier = true;
         }
+        {
+            let _w = writer.lock().unwrap();
+            closing.store(true, Ordering::SeqCst);
+        }
         res.closed_gracefully = send_frames(vec![RefFrame::new(8, true, key(&mut rng), vec![0x03, 0xe8])]);
-        // wait for the Close reply / EOF
+        // wait for the Close reply / EOF. No time bound belongs to the property: the wait is generous, and the largest
+        // overshoot of the 1 ms sleeps tells whether this machine was scheduling the client's threads at all.
         let t = Instant::now();
-        while t.elapsed() < Duration::from_secs(3) {
+        let mut worst_sleep_ms = 0u64;
+        while t.elapsed() < Duration::from_secs(10) {
             if shared.lock().unwrap().3 || reader.is_finished() {
                 break;
             }
+            let s0 = Instant::now();
             std::thread::sleep(Duration::from_millis(1));
+            worst_sleep_ms = worst_sleep_ms.max(s0.elapsed().as_millis() as u64);
         }
+        res.close_wait = format!("waited {} ms for the reply, reader thread {}, worst 1 ms sleep took {} ms", t.elapsed().as_millis(), if reader.is_finished() { "had seen EOF" } else { "still reading (no EOF)" }, worst_sleep_ms);
+        res.close_wait_disturbed = worst_sleep_ms > 300;
         stop_reader.store(true, Ordering::SeqCst);
     }
     if plan.leaves_early || !plan.graceful {
@@ -474,7 +495,11 @@ fn scenario(r: &mut Report, seed: u64, k: u64) {
             }
         }
         if c.closed_gracefully && !c.close_reply {
-            viol(r, "C12/close-not-answered", format!("client {} sent Close but received no Close frame back", i));
+            if c.close_wait_disturbed {
+                r.count("close_replies_not_judged_machine_stalled", 1);
+            } else {
+                viol(r, "C12/close-not-answered", format!("client {} sent Close but received no Close frame back ({})", i, c.close_wait));
+            }
         }
     }
     // broadcasts: exactly once to every client connected from before submission until the barrier
